@@ -100,6 +100,42 @@ Theorem C18_empty : forall H pbkdf2 mexp srpB (mp : option modpow) (mp' : modpow
 Proof. intros. split; reflexivity. Qed.
 Print Assumptions C18_empty.
 
+(* ---- the password is used verbatim ----
+   Both entry points use the password's exact byte string and nothing else of it: for a non-empty
+   password the result is [srp_answer_x x ...] with x = PH2(password, salt1, salt2) - no trimming, case
+   folding or normalisation in between (the reference server holds the verifier of the exact string, so
+   any such step would reject a right password and accept a wrong one).  Two passwords with the same PH2
+   get the same answer, and ONLY the empty byte string takes the "no password" branch: a password made of
+   white space is a password. *)
+Theorem C18_password_verbatim : forall H pbkdf2 mexp password srpB id mp random,
+  password <> [] ->
+  let x := big_of_bytes (password_hash2 H pbkdf2 password (mp_salt1 mp) (mp_salt2 mp)) in
+  get_input_check_password H pbkdf2 mexp password srpB (Some mp) random = srp_answer_x H mexp x srpB mp random /\
+  tg_get_input_check_password H pbkdf2 mexp password
+    (Some {| ap_algo := AlgoModPow (Some mp); ap_srpB := srpB; ap_srpid := id |}) random =
+  match srp_answer_x H mexp x srpB mp random with
+  | Ok None => Ok CheckEmpty
+  | Ok (Some r) => Ok (CheckSRP id (GA r) (M1 r))
+  | Err => Err
+  | Panic => Panic
+  end.
+Proof.
+  intros H pbkdf2 mexp password srpB id mp random Hpw x. split.
+  - exact (gicp_via_ph2 H pbkdf2 mexp password srpB mp random Hpw).
+  - rewrite tg_via_ph2. destruct password; [congruence|reflexivity].
+Qed.
+Print Assumptions C18_password_verbatim.
+
+Theorem C18_only_empty_is_no_password : forall H pbkdf2 mexp password srpB id mp random,
+  (get_input_check_password H pbkdf2 mexp password srpB (Some mp) random = Ok None <-> password = []) /\
+  (tg_get_input_check_password H pbkdf2 mexp password
+     (Some {| ap_algo := AlgoModPow (Some mp); ap_srpB := srpB; ap_srpid := id |}) random = Ok CheckEmpty
+   <-> password = []).
+Proof.
+  intros. split; [apply gicp_none_iff|apply tg_empty_iff].
+Qed.
+Print Assumptions C18_only_empty_is_no_password.
+
 (* ---- B: answered iff 0 < B < p and 248 <= len(srp_B) <= 256, refused (error) otherwise ---- *)
 Theorem C18_B_range : forall H pbkdf2 mexp, (forall m, length (H m) = 32%nat) ->
   forall password srpB mp random, password <> [] ->
@@ -204,6 +240,16 @@ Example C18_ex_B_zero_refused :
   get_input_check_password sha256 ex_pbkdf2 modexp ex_pw (enc256 0) (Some (sv_params ex_sv61)) [1]%N = Err /\
   get_input_check_password sha256 ex_pbkdf2 modexp ex_pw (enc256 (sv_p ex_sv61)) (Some (sv_params ex_sv61)) [1]%N = Err /\
   get_input_check_password sha256 ex_pbkdf2 modexp ex_pw (repeat 1%N 247) (Some (sv_params ex_sv61)) [1]%N = Err.
+Proof. split; [|split]; vm_compute; reflexivity. Qed.
+
+(* white space belongs to the password: the account's password is " hunter2 " (with the blanks);
+   typing exactly that is accepted, typing the trimmed "hunter2" is rejected, and a password that is a
+   single blank gets an SRP answer, not the "no password" one *)
+Definition ex_sv61ws := ex_server 2305843009213693951 3 987654321987 (lit " hunter2 ").
+Example C18_ex_white_space_counts :
+  ex_run ex_sv61ws (lit " hunter2 ") [7; 7; 7]%N = true /\
+  ex_run ex_sv61ws (lit "hunter2") [7; 7; 7]%N = false /\
+  ex_run (ex_server 2305843009213693951 3 5 [32]%N) [32]%N [7; 7; 7]%N = true.
 Proof. split; [|split]; vm_compute; reflexivity. Qed.
 
 (* different verifier is NOT enough for rejection: p = 7, g = 3, b = 5; the server holds the
